@@ -359,6 +359,17 @@ def _report(rep, w, lemma, reported, known):
     out = common.run_replay_subprocess(payload)
     payload["replay_result"] = out
     summary = "%s: %s; %s | %s" % (lemma, why, w.get("plain_fields", ""), out.get("observed", ""))
+    if not out.get("reproduced") and w["kind"] == "proba":
+        # the solver's witness rests on an uninterpreted function (a digest or a string transformation): look for a key on
+        # which the real code shows the deviation
+        p2 = dict(payload)
+        p2["kind"] = "proba_search"
+        out2 = common.run_replay_subprocess(p2)
+        if out2.get("reproduced"):
+            payload = p2
+            payload["replay_result"] = out2
+            out = out2
+            summary = "%s: %s | %s" % (lemma, why, out.get("observed", ""))
     if out.get("reproduced"):
         for f in known:
             if _matches(f, w, out):
